@@ -11,7 +11,7 @@ def run(tier):
     client.run_client(PID, tier, rep,
         design_cfgs=[("MC_Client_book.cfg" if tier == "quick" else "MC_Client_book_thorough.cfg", ["StStep", "RtRecv", "SubDrop", "SubUnsubStart"],
                       "1 call + 1 subscription through every end path; Inv_QuiescentEmpty / Inv_IndexConsistent"),
-                     ("MC_Client_abandon.cfg", ["FeAbandon", "StStep", "RtRecv", "RtForward"],
+                     ("MC_Client_abandon.cfg", ["AppAbandon", "StStep", "RtRecv", "RtForward"],
                       "the same, and the application may give any future up before it returns (timeout, select!): the tables still empty out")],
         asis=[("MC_Client_asis_F13a.cfg", "Inv_QuiescentEmpty", "subscribe id kept after unsubscribe (F13a)"),
               ("MC_Client_asis_F13b.cfg", "Inv_QuiescentEmpty", "reserved unsubscribe id kept after a server-side close (F13b)"),
